@@ -6,13 +6,14 @@ import F1Verif.Generated.Facts
 import F1Verif.Expected
 namespace F1.Props.FactsC04
 
+-- (jobCounter_take: re-proved semantically on the regenerated MiniGo programs, see Props/Refine*.lean)
+
 theorem fact_pool_Start : F1.Generated.skel_pool_Start = F1.Expected.skel_pool_Start := by rfl
 theorem fact_pool_run : F1.Generated.skel_pool_run = F1.Expected.skel_pool_run := by rfl
 theorem fact_pool_waitForNewJobs : F1.Generated.skel_pool_waitForNewJobs = F1.Expected.skel_pool_waitForNewJobs := by rfl
 theorem fact_cpool_Start : F1.Generated.skel_cpool_Start = F1.Expected.skel_cpool_Start := by rfl
 theorem fact_cpool_startWorker : F1.Generated.skel_cpool_startWorker = F1.Expected.skel_cpool_startWorker := by rfl
 theorem fact_manager_makeIterationStatePool : F1.Generated.skel_manager_makeIterationStatePool = F1.Expected.skel_manager_makeIterationStatePool := by rfl
-theorem fact_jobCounter_take : F1.Generated.skel_jobCounter_take = F1.Expected.skel_jobCounter_take := by rfl
 theorem fact_manager_NewTriggerPool : F1.Generated.skel_manager_NewTriggerPool = F1.Expected.skel_manager_NewTriggerPool := by rfl
 theorem fact_manager_NewContinuousPool : F1.Generated.skel_manager_NewContinuousPool = F1.Expected.skel_manager_NewContinuousPool := by rfl
 theorem fact_pool_new : F1.Generated.skel_pool_new = F1.Expected.skel_pool_new := by rfl
